@@ -21,8 +21,9 @@ from pathlib import Path
 
 VERIF = Path(__file__).resolve().parent.parent
 SPEC = VERIF / "spec"
-EVIDENCE = VERIF / "evidence"
-REPLAYS = VERIF / "replays"
+# (tools/ may redirect evidence and replays so that runs against scratch copies of /repo leave the committed evidence alone)
+EVIDENCE = Path(os.environ.get("VERIF_EVIDENCE_DIR", str(VERIF / "evidence")))
+REPLAYS = Path(os.environ.get("VERIF_REPLAY_DIR", str(VERIF / "replays")))
 REPO = Path(os.environ.get("VERIF_REPO", "/repo"))
 PY = os.environ.get("VERIF_PYTHON", "/venv/bin/python")
 TLA_CP = "/opt/veriftools/tla/tla2tools.jar:/opt/veriftools/tla/CommunityModules-deps.jar"
